@@ -88,29 +88,250 @@ def argument_grid(mode):
     return out
 
 # -------------------------------------------------------------------------------------------------
+def with_directive(cases, directive):
+    out = []
+    for c in cases:
+        lines = c.split("\n")
+        # insert after the !mode line
+        k = [i for i, l in enumerate(lines) if l.startswith("!mode")][0]
+        out.append("\n".join(lines[:k + 1] + [directive] + lines[k + 1:]))
+    return out
+
+def rename(cases, suffix):
+    out = []
+    for c in cases:
+        first, rest = c.split("\n", 1)
+        out.append(first + suffix + "\n" + rest)
+    return out
+
+def short_sequences(tier, seed, mode, classes, hostile=False):
+    """short sequences with many callbacks, used for the crash-point / fault-point sweeps"""
+    rng = G.Rng(seed ^ 0x51)
+    out = []
+    n = 40 if tier == "quick" else 300
+    for cls in classes:
+        for label, pre in G.start_states(cls)[:6]:
+            seqs = [[op] for op in G.mutating_ops(args=[0, 1, 2, 5])] + G.two_reg_ops() + G.iter_ops()[::3]
+            for j in range(n):
+                seq = rng.pick(seqs)
+                out.append(G.case("sq-%s-%s-%d" % (cls, label, len(out)), cls, mode, pre + list(seq)))
+    return out
+
+def panic_sweep(tier, seed, mode):
+    base = short_sequences(tier, seed, mode, ["w4", "s16", "b1"])
+    out = []
+    ks = range(1, 9) if tier == "quick" else range(1, 25)
+    for k in ks:
+        out += rename(with_directive(base, "!panic_at %d" % k), "-p%d" % k)
+    return out
+
+def allocfail_sweep(tier, seed, mode):
+    base = short_sequences(tier, seed ^ 7, mode, ["w4", "s16", "big"])
+    out = []
+    for k in (range(1, 5) if tier == "quick" else range(1, 9)):
+        out += rename(with_directive(base, "!allocfail_at %d" % k), "-a%d" % k)
+    return out
+
+def sentinel_sweep(mode):
+    out = []
+    k = 0
+    for cls in G.CLASSES:
+        for ctor in (["new v0"], ["default v0"], ["with_capacity v0 0"], ["from_slice v0"], ["collect v0 it[]"], ["macro_empty v0"],
+                     ["macro_repeat v0 5 0"], ["new x", "clone x v0"], ["new x", "drain_vec x v0"]):
+            for op in G.mutating_ops(args=[0, 1, (1 << 64) - 1]):
+                out.append(G.case("sent-%s-%d" % (cls, k), cls, mode, ctor + [op, "push v0 9"])); k += 1
+            for seq in G.two_reg_ops() + G.iter_ops():
+                out.append(G.case("sent-%s-%d" % (cls, k), cls, mode, ctor + list(seq))); k += 1
+            out.append(G.case("sent-%s-%d" % (cls, k), cls, mode, ctor + ["leak v0"])); k += 1
+            out.append(G.case("sent-%s-%d" % (cls, k), cls, mode, ctor + ["forget v0"])); k += 1
+    return out
+
+def forget_cases(tier, seed, mode):
+    out = []
+    k = 0
+    for cls in G.CLASSES:
+        for label, pre in G.start_states(cls):
+            for seq in G.iter_ops():
+                if any(x.startswith("forget") for x in seq):
+                    out.append(G.case("fg-%s-%s-%d" % (cls, label, k), cls, mode, pre + list(seq) + ["pop v0", "clear v0"])); k += 1
+    return out
+
+def iterator_cases(tier, seed, mode):
+    out = []
+    k = 0
+    rng = G.Rng(seed ^ 0x10)
+    for cls in G.CLASSES:
+        for label, pre in G.start_states(cls):
+            for seq in G.iter_ops():
+                out.append(G.case("it-%s-%s-%d" % (cls, label, k), cls, mode, pre + list(seq))); k += 1
+    # exhaustive (front, back) prefixes up to exhaustion + 2 on a 5-element vector
+    for cls in ("w4", "s16"):
+        for b1, b2 in (("U", "U"), ("I1", "E4"), ("I2", "E2"), ("E0", "I3")):
+            for f in range(0, 8):
+                for bk in range(0, 8 - f):
+                    steps = []
+                    for i in range(max(f, bk)):
+                        if i < f: steps += ["next it", "size_hint it"]
+                        if i < bk: steps += ["next_back it", "len it"]
+                    out.append(G.case("itx-%s-%d" % (cls, k), cls, mode, ["macro_list v0 1 2 3 4 5", "drain v0 %s %s it" % (b1, b2)] + steps + ["drop it"])); k += 1
+                    out.append(G.case("itx-%s-%d" % (cls, k), cls, mode, ["macro_list v0 1 2 3 4 5", "splice v0 %s %s it[7,8] it" % (b1, b2)] + steps + ["drop it"])); k += 1
+            for f in range(0, 8):
+                for bk in range(0, 8 - f):
+                    steps = ["next it", "as_slice it"] * f + ["next_back it", "len it"] * bk
+                    out.append(G.case("itx-%s-%d" % (cls, k), cls, mode, ["macro_list v0 1 2 3 4 5", "into_iter v0 it"] + steps + ["size_hint it", "drop it"])); k += 1
+    return out
+
+def clone_cases(tier, seed, mode):
+    out = []
+    k = 0
+    for cls in G.CLASSES:
+        for label, pre in G.start_states(cls):
+            for tail in (["drop v0", "push c 1", "pop c", "drop c"], ["drop c", "push v0 1", "pop v0"], ["push v0 1", "push c 2", "truncate v0 1", "compare v0 c"]):
+                out.append(G.case("cl-%s-%s-%d" % (cls, label, k), cls, mode, pre + ["clone v0 c"] + tail)); k += 1
+            for f in range(0, 4):
+                for bk in range(0, 3):
+                    steps = ["next it"] * f + ["next_back it"] * bk
+                    for tail in (["drop it", "as_slice j", "next j", "next_back j", "drop j"], ["drop j", "next it", "as_slice it", "drop it"],
+                                 ["next j", "next it", "next_back j", "as_slice it", "as_slice j"]):
+                        out.append(G.case("cli-%s-%s-%d" % (cls, label, k), cls, mode, pre + ["into_iter v0 it"] + steps + ["clone_iter it j"] + tail)); k += 1
+    return out
+
+def raw_cases(tier, seed, mode):
+    out = []
+    k = 0
+    for cls in G.CLASSES:
+        for label, pre in G.start_states(cls):
+            for op in ("raw_parts v0", "raw_part v0"):
+                out.append(G.case("raw-%s-%s-%d" % (cls, label, k), cls, mode, pre + [op, "push v0 5", "pop v0", "spare v0"])); k += 1
+        for a in (8, 16, 32, 64, 128, 512, 4096):
+            for n in (0, 1, 5):
+                for op in ("raw_parts v0", "raw_part v0"):
+                    out.append(G.case("rawA-%s-%d" % (cls, k), cls, mode, ["with_alignment v0 %d %d" % (n, a), "push v0 1", "push v0 2", op, "push v0 3", "pop v0"])); k += 1
+    return out
+
+def hostile_cases(tier, seed, mode):
+    out = []
+    k = 0
+    rng = G.Rng(seed ^ 0x77)
+    import itertools
+    scripts = []
+    for n in range(0, 5 if tier == "quick" else 7):
+        for pat in itertools.product(["N", "7"], repeat=n):
+            scripts.append("it[" + ",".join(pat) + "]")
+    preds = ["seq" + "".join(p) for n in range(0, 5) for p in itertools.product("TF", repeat=n)]
+    for cls in ("w4", "s16", "b1"):
+        for label, pre in G.start_states(cls)[:6]:
+            for sc in scripts:
+                for h in ("", "h0-N", "h0-0", "h18446744073709551615-N", "h1-1"):
+                    if h and rng.below(4):
+                        continue
+                    out.append(G.case("hs-%s-%s-%d" % (cls, label, k), cls, mode, pre + ["splice v0 I1 E2 %s%s it" % (sc, h), "drop it", "extend v0 %s%s" % (sc, h), "collect c %s%s" % (sc, h)], ["!vecdiff off"])); k += 1
+            for p in preds:
+                out.append(G.case("hp-%s-%s-%d" % (cls, label, k), cls, mode, pre + ["retain v0 %s" % p, "dedup_by v0 %s" % p, "drain_filter v0 %s it" % p, "next it", "drop it"], ["!vecdiff off"])); k += 1
+            for es in ("T", "F", "TF", "FT", "TTFF", "FTFT"):
+                out.append(G.case("he-%s-%s-%d" % (cls, label, k), cls, mode, pre + ["dedup v0", "remove_item v0 2", "compare v0 v0"], ["!vecdiff off", "!eq_script " + es])); k += 1
+    n = 300 if tier == "quick" else 3000
+    for i in range(n):
+        cls = G.CLASSES[i % len(G.CLASSES)]
+        out.append(G.random_case(rng, "hr-%s-%d" % (cls, i), cls, mode, 15 + rng.below(25), directives=["!vecdiff off"], hostile=True))
+    return out
+
+def align_cases(tier, seed, mode):
+    out = []
+    k = 0
+    rng = G.Rng(seed ^ 0x88)
+    aligns = [1, 2, 4, 8, 16, 32, 64, 128, 256, 512, 1024, 2048, 4096, 3, 6, 12, 24, 48, 96, 100, 4095, 4097, 8192]
+    hist = [["push v0 1", "clear v0", "shrink_to_fit v0", "push v0 2", "push v0 3"],
+            ["shrink_to_fit v0", "reserve v0 9", "push v0 1"],
+            ["push v0 1", "push v0 2", "push v0 3", "push v0 4", "push v0 5", "truncate v0 1", "shrink_to v0 1", "pop v0", "shrink_to_fit v0", "extend v0 it[1,2,3]"],
+            ["extend_from_slice v0 1 2 3 4 5 6 7 8 9", "drain v0 I1 E5 it", "drop it", "split_off v0 2 c", "push v0 7", "append v0 c"],
+            ["push v0 1", "split_off v0 0 c", "push c 5", "push v0 6", "drain_vec c d", "push d 7"],
+            ["push v0 1", "into_iter v0 it", "next it", "drop it"],
+            ["resize v0 9 4", "retain v0 mod2=0", "dedup v0", "shrink_to_fit v0", "insert v0 0 5"],
+            ["clone v0 c", "push c 1", "reserve_exact v0 17", "push v0 1"]]
+    for cls in G.CLASSES:
+        for a in aligns:
+            for n in (0, 1, 4):
+                for h in hist:
+                    out.append(G.case("al-%s-%d" % (cls, k), cls, mode, ["with_alignment v0 %d %d" % (n, a)] + h)); k += 1
+    return out
+
+def general(tier, seed, pid, modes=("debug",)):
+    return [(m, corpus(m, pid) + general_cases(tier, seed, m)) for m in modes]
+
 PROPS = {
+    "C01": {"modules": ["MiniVecProof.Props.C01"],
+            "cases": lambda tier, seed: general(tier, seed, "C01"),
+            "owned_oracles": ["O vec-mismatch", "macro-evals"], "owned_diffs": ["result", "contents", "panic"],
+            "partial_missing": ["refinement lemma proved for push, pop; every other operation of the property is tied to Vec and to the model by the three-way correspondence only"]},
+    "C02": {"modules": ["MiniVecProof.Props.C01", "MiniVecProof.Proofs.MemDrop"],
+            "cases": lambda tier, seed: general(tier, seed, "C02"),
+            "owned_oracles": ["O ledger"], "owned_diffs": ["own"],
+            "partial_missing": ["exactly-once destruction proved for truncate, clear, Drop (dropVec_spec, truncate_spec); other operations by correspondence + per-element ledger"]},
+    "C03": {"modules": ["MiniVecProof.Props.C01", "MiniVecProof.Proofs.MemDrop", "MiniVecProof.Props.C09"],
+            "cases": lambda tier, seed: general(tier, seed, "C03", modes=("debug", "release")),
+            "owned_oracles": ["O alloc", "O cap"], "owned_diffs": ["alloc", "ub", "crash"],
+            "partial_missing": ["layout quoting proved for grow (every caller) and Drop; in-bounds access proved for push, pop, truncate, clear, Drop; others by correspondence + checking allocator"]},
+    "C04": {"modules": ["MiniVecProof.Props.C01"],
+            "cases": lambda tier, seed: [("debug", corpus("debug", "C04") + panic_sweep(tier, seed, "debug"))],
+            "owned_oracles": ["O ledger", "O alloc", "X signal 11"], "owned_diffs": ["own", "contents", "result", "panic", "alloc", "ub", "crash"],
+            "partial_missing": ["proved: push/pop under arbitrary destructor-panic oracles (POp.refines quantifies over the oracle); every other callback site by the crash-point sweep"]},
+    "C05": {"modules": ["MiniVecProof.Props.C05"],
+            "cases": lambda tier, seed: [("debug", corpus("debug", "C05") + forget_cases(tier, seed, "debug"))],
+            "owned_oracles": ["O ledger", "O alloc", "X signal 11"], "owned_diffs": ["own", "contents", "result", "ub", "crash"],
+            "partial_missing": ["Splice/DrainFilter steps before the forget and IntoIter: correspondence only"]},
+    "C06": {"modules": ["MiniVecProof.Props.C06"],
+            "cases": lambda tier, seed: [("debug", corpus("debug", "C06") + sentinel_sweep("debug")), ("release", corpus("release", "C06") + sentinel_sweep("release"))],
+            "owned_oracles": ["X signal", "O ledger", "O alloc", "O vec-mismatch"], "owned_diffs": ["result", "contents", "panic", "alloc", "own", "ub", "crash", "cap"]},
+    "C07": {"modules": ["MiniVecProof.Props.C07", "MiniVecProof.Props.C01"],
+            "cases": lambda tier, seed: general(tier, seed, "C07", modes=("debug", "release")),
+            "owned_oracles": ["O cap", "reserve-contract", "stable"], "owned_diffs": ["cap", "alloc"],
+            "partial_missing": ["storage stability proved for pop, truncate, clear (block and capacity unchanged in their specs); other operations by correspondence"]},
+    "C08": {"modules": ["MiniVecProof.Props.C08"],
+            "cases": lambda tier, seed: [("debug", corpus("debug", "C08") + align_cases(tier, seed, "debug")), ("release", align_cases(tier, seed, "release"))],
+            "owned_oracles": ["O align", "align-req", "O alloc layout-mismatch"], "owned_diffs": ["alloc", "result", "ub"]},
     "C09": {
         "modules": ["MiniVecProof.Props.C09"],
-        "theorems": ["MV.Props.C09_no_wrap", "MV.Props.C09_refuse_or_back", "MV.Props.C09_profile_independent",
-                     "MV.Props.C09_kernel_profile_independent", "MV.Props.C09_reserve_terminates",
-                     "MV.Props.C09_len_plus_additional_overflow"],
         "cases": lambda tier, seed: [("debug", corpus("debug", "C09") + huge_cases("debug")), ("release", corpus("release", "C09") + huge_cases("release"))],
         "owned_oracles": ["O cap", "X ", "= hang", "reserve-contract"],
         "owned_diffs": ["result", "panic", "alloc", "cap", "crash", "ub"],
         "partial_missing": ["lifting of the generated-code theorems through the hand model for resize / resize_with / mini_vec![x; n] / extend_from_slice is by correspondence only"],
     },
+    "C10": {"modules": ["MiniVecProof.Props.C05", "MiniVecProof.Props.C06"],
+            "cases": lambda tier, seed: [("debug", corpus("debug", "C10") + iterator_cases(tier, seed, "debug"))],
+            "owned_oracles": ["O vec-mismatch", "X signal 11"], "owned_diffs": ["result", "contents", "ub", "crash"],
+            "partial_missing": ["proved: Drain steps never modify the vector and the dangling-cursor iterator yields None from both ends; the yielded sequence itself is checked against std's iterators and the model by correspondence"]},
     "C11": {
         "modules": ["MiniVecProof.Props.C11"],
-        "theorems": ["MV.Props.C11_insert", "MV.Props.C11_remove", "MV.Props.C11_swap_remove", "MV.Props.C11_split_off",
-                     "MV.Props.C11_drain", "MV.Props.C11_splice", "MV.Props.C11_extend_from_within", "MV.Props.C11_truncate_total",
-                     "MV.Props.C11_shrink_to_reject", "MV.Props.C11_shrink_to_accept", "MV.Props.C11_rejected_untouched",
-                     "MV.Props.C11_resolve_iff"],
         "cases": lambda tier, seed: [("debug", corpus("debug", "C11") + argument_grid("debug")), ("release", argument_grid("release"))] if tier == "thorough"
                  else [("debug", corpus("debug", "C11") + argument_grid("debug"))],
         "owned_oracles": ["accept-predicate", "rejected-unchanged", "X signal 11"],
         "owned_diffs": ["panic", "result"],
     },
+    "C12": {"modules": ["MiniVecProof.Props.C01"],
+            "cases": lambda tier, seed: [("debug", corpus("debug", "C12") + clone_cases(tier, seed, "debug"))],
+            "owned_oracles": ["O ledger", "O alloc", "X signal 11", "O vec-mismatch"], "owned_diffs": ["own", "contents", "result", "alloc", "ub", "crash"],
+            "partial_missing": ["clone / IntoIter::clone are hand-modelled and tied by correspondence with owning elements in both drop orders; no clone-specific theorem yet beyond the refinement lemmas the clone is built from (push)"]},
+    "C14": {"modules": ["MiniVecProof.Props.C14"],
+            "cases": lambda tier, seed: [("debug", corpus("debug", "C14") + raw_cases(tier, seed, "debug")), ("release", raw_cases(tier, seed, "release"))],
+            "owned_oracles": ["O rawparts", "O cap", "O ledger", "X signal", "O vec-mismatch"], "owned_diffs": ["ub", "result", "contents", "crash", "panic"]},
+    "C17": {"modules": ["MiniVecProof.Props.C01"],
+            "cases": lambda tier, seed: [("debug", corpus("debug", "C17") + hostile_cases(tier, seed, "debug"))],
+            "owned_oracles": ["O ledger", "O alloc", "X signal 11"], "owned_diffs": ["own", "contents", "result", "alloc", "ub", "crash"],
+            "partial_missing": ["no hostile-callback theorem yet beyond push/pop (which call no user code); scripted callbacks enumerated exhaustively up to length 4 (quick) / 6 (thorough) by the correspondence"]},
+    "C18": {"modules": ["MiniVecProof.Props.C18"],
+            "cases": lambda tier, seed: [("debug", allocfail_sweep(tier, seed, "debug")), ("release", allocfail_sweep(tier, seed, "release"))],
+            "owned_oracles": ["X signal 11", "allocfail-outcome", "O alloc"], "owned_diffs": ["alloc", "panic", "result", "crash", "ub"]},
 }
+
+import special as S
+PROPS["C13"] = {"modules": ["MiniVecProof.Props.C13"], "special": S.c13,
+                "partial_missing": ["rustc's layout algorithm is modelled (sum of field sizes rounded to the largest alignment, niche if a field has one), not verified; validated by compile-time assertions over a family of element types"]}
+PROPS["C15"] = {"modules": ["MiniVecProof.Props.C15"], "special": S.c15,
+                "cases": lambda tier, seed: [("debug", [c for c in general_cases(tier, seed, "debug", classes=["w4", "s16"]) if "compare" in c][:3000])],
+                "owned_oracles": ["O cmp-slice-mismatch"], "owned_diffs": ["result"]}
+PROPS["C16"] = {"modules": ["MiniVecProof.Props.C16"], "special": S.c16,
+                "partial_missing": ["rustc's borrow checker and trait solver are modelled by a loan-based stand-in judgement over a mini-language; 'all client programs' is reached only within it; validated against rustc on every run"]}
 
 def diff_category(d):
     a, b = d["impl"], d["model"]
@@ -147,7 +368,14 @@ def correspondence(pid, tier, seed, model_ok=True):
     samples = []
     validated = 0
     problems_all = []
-    for mode, cases in P["cases"](tier, seed):
+    special_cov = None
+    if "special" in P:
+        try:
+            sv, special_cov = P["special"](tier, seed)
+        except Exception as e:
+            sv, special_cov = [{"signature": "special-tie-crashed", "concrete": False, "payload": {"what": "the rustc / native tie could not run: %r" % (e,)}}], {"evaluations": 0, "distinct_nontrivial": 0}
+        violations += sv
+    for mode, cases in (P["cases"](tier, seed) if "cases" in P else []):
         texts = {}
         for c in cases:
             name = c.split("\n", 1)[0].split()[1]
@@ -181,20 +409,36 @@ def correspondence(pid, tier, seed, model_ok=True):
             found = []
             for i, op in enumerate(ops):
                 for o in op.O + op.X + (["= " + op.result] if op.result in ("hang",) else []):
-                    if any(o.startswith(p) for p in P["owned_oracles"]):
+                    if any(o.startswith(p) for p in P.get("owned_oracles", [])):
                         if o.startswith("X signal 6") and ("allocfail" in o or (op.result or "").startswith("abort")):
                             continue      # the documented abort paths (allocation failure, double panic)
                         found.append((o.split()[1] if o.startswith("O ") else o.split()[0] + "-" + "-".join(o.split()[1:3]), i, o))
                     elif o.startswith("O "):
                         other_oracles[" ".join(o.split()[:2])] += 1
             for kind, i, textv in T.orchestrator_oracles(ops, SIZES.get(cls, 4)):
-                if kind in P["owned_oracles"]:
+                if kind in P.get("owned_oracles", []):
                     found.append((kind, i, textv))
                 else:
                     other_oracles["orch " + kind] += 1
+            # canonical signature of the one recorded open finding (D11), so that only this failing
+            # call pattern is matched by known_findings.json and any other violation is still reported
+            d11_from = None
+            if pid == "C14":
+                ALIGN = {"b1": 8, "w4": 8, "p4": 8, "s16": 8, "big": 8, "a32": 32}
+                over = set()
+                for i, op in enumerate(ops):
+                    a = op.args
+                    if op.name == "with_alignment" and op.result == "ok" and len(a) == 3 and int(a[2]) > ALIGN.get(cls, 8):
+                        over.add(a[0])
+                    if op.name in ("raw_part", "raw_parts") and a and a[0] in over and d11_from is None:
+                        d11_from = i
+            D11SIG = "D11:from_raw_part(s) on a buffer whose recorded alignment exceeds max(align_of::<T>(), 8)"
             for kind, i, textv in found:
                 opname = ops[i].name if i < len(ops) else "?"
-                violations.append({"signature": "%s:%s:%s" % (kind, opname, cls), "concrete": True,
+                sig = "%s:%s:%s" % (kind, opname, cls)
+                if d11_from is not None and i >= d11_from:
+                    sig = D11SIG
+                violations.append({"signature": sig, "concrete": True,
                                    "payload": {"what": "implementation-side oracle", "oracle": textv, "op": ops[i].line if i < len(ops) else "",
                                                "case": text, "mode": mode, "impl_trace": h}})
             # model vs implementation
@@ -208,10 +452,13 @@ def correspondence(pid, tier, seed, model_ok=True):
                 else:
                     cat = diff_category(d)
                     diffcats[cat] += 1
-                    if cat in P["owned_diffs"]:
+                    if cat in P.get("owned_diffs", []):
                         concrete = bool(found)
                         if not concrete:
-                            violations.append({"signature": "model-vs-impl:%s:%s:%s" % (cat, (d["op"].split() + ["?", "?"])[1], cls), "concrete": False,
+                            sig = "model-vs-impl:%s:%s:%s" % (cat, (d["op"].split() + ["?", "?"])[1], cls)
+                            if d11_from is not None:
+                                sig = D11SIG
+                            violations.append({"signature": sig, "concrete": d11_from is not None and cat == "ub",
                                                "payload": {"what": "the model and the implementation disagree (the tie no longer checks)", "diff": d,
                                                            "case": text, "mode": mode, "impl_trace": R.strip_harness(h), "model_trace": m}})
     cov = {
@@ -226,6 +473,14 @@ def correspondence(pid, tier, seed, model_ok=True):
         "oracle_reports_owned_by_other_properties": dict(other_oracles),
         "runner_problems": problems_all[:5],
     }
+    if special_cov is not None:
+        if evaluations == 0:
+            cov = dict(special_cov, runner_problems=problems_all[:5])
+        else:
+            cov["evaluations"] += special_cov.get("evaluations", 0)
+            cov["distinct_nontrivial"] += special_cov.get("distinct_nontrivial", 0)
+            cov["traces_validated_against_impl"] += special_cov.get("traces_validated_against_impl", 0)
+            cov["native_tie"] = special_cov
     return {"violations": violations, "coverage": cov}
 
 def replay(pid, path):
